@@ -1488,3 +1488,77 @@ package gomatrixserverlib
 //@   ensures redacted-form: !old(e.redacted) ==> (called(RedactEventJSON) && called(EnforcedCanonicalJSON) && e.eventJSON == ret(EnforcedCanonicalJSON, 0))
 //@   calls RedactEventJSON whole-event-under-its-room-version: eventJSON == old(e.eventJSON) && ref(recv) == verImplRef(string(old(e.roomVersion)))
 //@   calls EnforcedCanonicalJSON@root of-redacted-json: input == ret(RedactEventJSON, 0) && roomVersion == old(e.roomVersion)
+
+// ---------------------------------------------------------------- C04: untrusted event parsers
+
+// CanonicalJSONAssumeValid and checkEventContentHash are functions of the document (bodies: C01 / C03).
+//@ func CanonicalJSONAssumeValid
+//@   trusted
+//@   ensures canonical: str(result) == canonAV(str(input))
+//@   assigns nothing
+
+//@ func checkEventContentHash
+//@   trusted
+//@   ensures verdict: (result == nil) <==> hashOK(str(eventJSON))
+//@   assigns nothing
+
+//@ func newEventFromUntrustedJSONV1
+//@   property C04
+//@   results ev, err
+//@   requires roomVersion != nil
+//@   loop 1: invariant 0 <= idx(1) && idx(1) <= 4 && str(eventJSON) == stripN(old(str(eventJSON)), idx(1))
+//@   calls checkEventContentHash@root over-stored-json: str(eventJSON) == canonAV(strip4(old(str(root_eventJSON))))
+//@   calls NewEventFromTrustedJSON@root redacted-form-only: redacted && ret(checkEventContentHash) != nil && str(eventJSON) == canonAV(str(ret(RedactEventJSON, 0)))
+//@   calls RedactEventJSON@root of-stored-json: str(eventJSON) == canonAV(strip4(old(str(root_eventJSON))))
+//@   ensures reparsed: (err == nil && called(NewEventFromTrustedJSON)) ==> ev == ret(NewEventFromTrustedJSON, 0)
+//@   ensures direct: (err == nil && !called(NewEventFromTrustedJSON)) ==> (isType(ev, "*eventV1") && str(ev.(*eventV1).eventJSON) == canonAV(strip4(old(str(eventJSON)))) && ev.(*eventV1).roomVersion == roomVersion.Version() && (ev.(*eventV1).redacted <==> !hashOK(str(ev.(*eventV1).eventJSON))) && (ev.(*eventV1).redacted ==> canonAV(str(roomVersion.RedactEventJSON(ev.(*eventV1).eventJSON)[0])) == str(ev.(*eventV1).eventJSON)))
+//@   ensures direct-fields: (err == nil && !called(NewEventFromTrustedJSON)) ==> *ev.(*eventV1) == patched(jmerge(zero("eventV1"), strip4(old(str(eventJSON)))), *ev.(*eventV1))
+//@   ensures fields-checked: err == nil ==> (called(CheckFields) && ret(CheckFields) == nil && arg(CheckFields, 0) == ev)
+//@   ensures C17.limits-enforced-on-receipt: err == nil ==> (called(CheckFields) && ret(CheckFields) == nil && arg(CheckFields, 0) == ev)
+
+//@ func newEventFromUntrustedJSONV2
+//@   property C04
+//@   results ev, err
+//@   requires roomVersion != nil
+//@   loop 1: invariant 0 <= idx(1) && idx(1) <= 5 && str(eventJSON) == stripN(old(str(eventJSON)), idx(1))
+//@   calls checkEventContentHash@root over-stored-json: str(eventJSON) == canonAV(strip5(old(str(root_eventJSON))))
+//@   calls NewEventFromTrustedJSON@root redacted-form-only: redacted && ret(checkEventContentHash) != nil && str(eventJSON) == canonAV(str(ret(RedactEventJSON, 0)))
+//@   calls RedactEventJSON@root of-stored-json: str(eventJSON) == canonAV(strip5(old(str(root_eventJSON))))
+//@   ensures reparsed: (err == nil && called(NewEventFromTrustedJSON)) ==> ev == ret(NewEventFromTrustedJSON, 0)
+//@   ensures direct: (err == nil && !called(NewEventFromTrustedJSON)) ==> (isType(ev, "*eventV2") && str(ev.(*eventV2).eventJSON) == canonAV(strip5(old(str(eventJSON)))) && ev.(*eventV2).roomVersion == roomVersion.Version() && (ev.(*eventV2).redacted <==> !hashOK(str(ev.(*eventV2).eventJSON))) && (ev.(*eventV2).redacted ==> canonAV(str(roomVersion.RedactEventJSON(ev.(*eventV2).eventJSON)[0])) == str(ev.(*eventV2).eventJSON)))
+//@   ensures direct-fields: (err == nil && !called(NewEventFromTrustedJSON)) ==> *ev.(*eventV2) == setfield(jmerge(zero("eventV2"), strip5(old(str(eventJSON)))), "eventV1", patched(jmerge(zero("eventV2"), strip5(old(str(eventJSON)))).eventV1, ev.(*eventV2).eventV1))
+//@   ensures fields-checked: err == nil ==> (called(CheckFields) && ret(CheckFields) == nil && arg(CheckFields, 0) == ev)
+//@   ensures C17.limits-enforced-on-receipt: err == nil ==> (called(CheckFields) && ret(CheckFields) == nil && arg(CheckFields, 0) == ev)
+
+//@ func newEventFromUntrustedJSONV3
+//@   property C04
+//@   results ev, err
+//@   requires roomVersion != nil
+//@   loop 1: invariant 0 <= idx(1) && idx(1) <= 5 && str(eventJSON) == stripN(old(str(eventJSON)), idx(1))
+//@   calls checkEventContentHash@root over-stored-json: str(eventJSON) == canonAV(strip5(old(str(root_eventJSON))))
+//@   calls NewEventFromTrustedJSON@root redacted-form-only: redacted && ret(checkEventContentHash) != nil && str(eventJSON) == canonAV(str(ret(RedactEventJSON, 0)))
+//@   calls RedactEventJSON@root of-stored-json: str(eventJSON) == canonAV(strip5(old(str(root_eventJSON))))
+//@   ensures reparsed: (err == nil && called(NewEventFromTrustedJSON)) ==> ev == ret(NewEventFromTrustedJSON, 0)
+//@   ensures direct: (err == nil && !called(NewEventFromTrustedJSON)) ==> (isType(ev, "*eventV3") && str(ev.(*eventV3).eventJSON) == canonAV(strip5(old(str(eventJSON)))) && ev.(*eventV3).roomVersion == roomVersion.Version() && (ev.(*eventV3).redacted <==> !hashOK(str(ev.(*eventV3).eventJSON))) && (ev.(*eventV3).redacted ==> canonAV(str(roomVersion.RedactEventJSON(ev.(*eventV3).eventJSON)[0])) == str(ev.(*eventV3).eventJSON)))
+//@   ensures direct-fields: (err == nil && !called(NewEventFromTrustedJSON)) ==> ev.(*eventV3).eventV2 == setfield(jmerge(zero("eventV3"), strip5(old(str(eventJSON)))).eventV2, "eventV1", patched(jmerge(zero("eventV3"), strip5(old(str(eventJSON)))).eventV2.eventV1, ev.(*eventV3).eventV2.eventV1))
+//@   ensures fields-checked: err == nil ==> (called(CheckFields) && ret(CheckFields) == nil && arg(CheckFields, 0) == ev)
+//@   ensures C17.limits-enforced-on-receipt: err == nil ==> (called(CheckFields) && ret(CheckFields) == nil && arg(CheckFields, 0) == ev)
+
+// the trusted parsers: every field comes from the given JSON; the bookkeeping fields from the arguments
+//@ func newEventFromTrustedJSONV1
+//@   property C04
+//@   results ev, err
+//@   requires roomVersion != nil
+//@   ensures fields: err == nil ==> (isType(ev, "*eventV1") && fresh(ev.(*eventV1)) && *ev.(*eventV1) == setfield(setfield(setfield(jmerge(zero("eventV1"), eventJSON), "eventJSON", eventJSON), "redacted", redacted), "roomVersion", roomVersion.Version()))
+
+//@ func newEventFromTrustedJSONV2
+//@   property C04
+//@   results ev, err
+//@   requires roomVersion != nil
+//@   ensures fields: err == nil ==> (isType(ev, "*eventV2") && fresh(ev.(*eventV2)) && *ev.(*eventV2) == setfield(jmerge(zero("eventV2"), eventJSON), "eventV1", setfield(setfield(setfield(jmerge(zero("eventV2"), eventJSON).eventV1, "eventJSON", eventJSON), "redacted", redacted), "roomVersion", roomVersion.Version())))
+
+//@ func newEventFromTrustedJSONV3
+//@   property C04
+//@   results ev, err
+//@   requires roomVersion != nil
+//@   ensures fields: err == nil ==> (isType(ev, "*eventV3") && fresh(ev.(*eventV3)) && ev.(*eventV3).eventV2 == setfield(jmerge(zero("eventV3"), eventJSON).eventV2, "eventV1", setfield(setfield(setfield(jmerge(zero("eventV3"), eventJSON).eventV2.eventV1, "eventJSON", eventJSON), "redacted", redacted), "roomVersion", roomVersion.Version())))
